@@ -350,9 +350,20 @@ func checkC16() int {
 	c := NewCheck("C16")
 	pool := newPool()
 	envs := genEnvs(c, c.pick(1500, 40000), 16, 25)
-	c.Rule = "G2 environments (25% with an injected defect) and G1 programs; after a successful Typecheck every type node of every definition (and of function signatures / process types of G1 programs) is read through exported fields and must carry one of the four modes, equal to R3's directional inference (annotation, else first mode fixed by a shift or named component, else replicable; shift continuation = source mode; reference = mode of the definition); verdict and modes must be unchanged when the declarations are permuted and when the inferred head annotation is written explicitly; non-trivial = distinct accepted environment with >= 1 unannotated definition whose mode is not the default"
+	c.Rule = "G2 environments (25% with an injected defect), cycles of 2..4 unannotated non-default-mode definitions whose only mode source hangs off one member (with unannotated users, shuffled order) and G1 programs; after a successful Typecheck every type node of every definition (and of function signatures / process types of G1 programs) is read through exported fields and must carry one of the four modes, equal to R3's directional inference (annotation, else first mode fixed by a shift or named component, else replicable; shift continuation = source mode; reference = mode of the definition); verdict and modes must be unchanged when the declarations are permuted and when the inferred head annotation is written explicitly; non-trivial = distinct accepted environment with >= 1 unannotated definition whose mode is not the default"
 	c.Assumptions = []string{"R3's inference is the sentence in the statement of C16, evaluated as a least fixpoint over the definition graph"}
 	r := rand.New(rand.NewSource(subSeed(c.Seed, 1616)))
+	// cycles of unannotated definitions whose only mode source hangs off one member
+	cyc := 0
+	for k := 0; k < c.pick(400, 8000); k++ {
+		defs := rtypes.GenCycleDefs(r)
+		e := &envCase{defs: defs, an: rtypes.Analyze(defs), text: rtypes.DefsText(defs)}
+		if e.an.WF {
+			cyc++
+		}
+		envs = append(envs, e)
+	}
+	c.Extra["cycle_environments_wellformed"] = cyc
 	type variant struct {
 		env  *envCase
 		kind string
